@@ -366,3 +366,38 @@ def first_reason_rule(ctx, rule, why):
         ctx.check(rule, f'{site(f, st)} {ast.unparse(st)[:50]}', not earlier or guard is not None, f'{f.qual}|first-reason|{ast.unparse(st.value)[:30]}',
                   f'{ast.unparse(st)[:60]} can overwrite a blocking reason set before ({"; ".join(earlier[:3])}) without testing that none is set: {why}')
     return n
+
+
+LIST_MUTATORS = {'append', 'extend', 'insert', 'remove', 'pop', 'sort', 'reverse', 'clear', 'update', 'add', 'setdefault'}
+
+
+def alias_mutation_rule(ctx, rule, funcs, why):
+    """a local that is (on some path) just another name for a list / dict held by another object - bound from an attribute or
+    an item, never copied (freshness lattice of dataflow.py) - is not mutated in place: the owner would change with it"""
+    from ..dataflow import Freshness, SHARED, local_defs
+    repo = ctx.repo
+    n = 0
+    for f in funcs:
+        fr = Freshness(repo, f)
+        try:
+            fr.block(f.node.body, {p: SHARED for p in f.params})
+        except Exception:
+            continue
+        defs = local_defs(f.node)
+        bad = []
+        for c in [x for x in walk_no_nested(f.node) if isinstance(x, ast.Call) and isinstance(x.func, ast.Attribute) and
+                  x.func.attr in LIST_MUTATORS and isinstance(x.func.value, ast.Name)]:
+            nm = c.func.value.id
+            if nm in f.params or nm == 'self':
+                continue
+            env = fr.at_call.get(id(c))
+            if env is None or env.get(nm, SHARED) != SHARED:
+                continue
+            src = [v for _, v in defs.get(nm, []) if isinstance(v, (ast.Attribute, ast.Subscript))]
+            if src:
+                bad.append((c, src[0]))
+        n += 1
+        ctx.check(rule, site(f, bad[0][0]) if bad else site(f), not bad, f'{f.qual}|alias-mutation|{ast.unparse(bad[0][0])[:40] if bad else ""}',
+                  (f'{ast.unparse(bad[0][0])[:60]} mutates in place what is still {ast.unparse(bad[0][1])[:40]} of another object '
+                   f'(no copy on that path): {why}') if bad else '')
+    return n
